@@ -44,6 +44,7 @@ type kind struct {
 	s  string // struct name (ptr/struct), enum prefix
 	t  []kind // tuple components
 	nn bool   // ptr: the pointer is never nil (an invariant of the data structure, stated in specs.go)
+	keyed    bool // list: stands for a Go map; elements carry their key in field Key; order arbitrary
 	optElems bool // list: the elements are pointers that may be nil
 	elemNN bool // list: the elements are non-nil pointers (the list holds the structs themselves)
 }
@@ -83,6 +84,13 @@ var schemas = map[string][]field{
 	"FlushRequest":      {{"NetworkInstance", "NetworkInstance", kind{k: "oneof", s: "FlushNI"}}, {"Override", "Override", kPtr("Unit")}, {"Id", "Id", kPtr("Uint128")}},
 	"OpResult":          {{"ID", "ID", kNat}},
 	"AFTOperation":      {{"Id", "Id", kNat}, {"ElectionId", "ElectionId", kPtr("Uint128")}, {"Op", "Op", kEnum}},
+	"CandRIB":           {{"Afts", "Afts", kPtr("CandAfts")}},
+	"CandAfts": {{"NextHop", "NextHop", kind{k: "list", s: "CandNH", elemNN: true, keyed: true}}, {"NextHopGroup", "NextHopGroup", kind{k: "list", s: "CandNHG", elemNN: true, keyed: true}},
+		{"Ipv4Entry", "Ipv4Entry", kind{k: "list", s: "CandTop", elemNN: true, keyed: true}}, {"Ipv6Entry", "Ipv6Entry", kind{k: "list", s: "CandTop", elemNN: true, keyed: true}},
+		{"LabelEntry", "LabelEntry", kind{k: "list", s: "CandTop", elemNN: true, keyed: true}}},
+	"CandNH":    {{"Key", "Key", kNat}, {"Index", "Index", kNat}},
+	"CandNHG":   {{"Key", "Key", kNat}, {"Id", "Id", kNat}, {"NextHop", "NextHop", kind{k: "list", s: "CandNH", elemNN: true, keyed: true}}},
+	"CandTop":   {{"Key", "Key", kNat}, {"NextHopGroup", "NextHopGroup", kNat}, {"NextHopGroupNetworkInstance", "NextHopGroupNetworkInstance", kStr}},
 	"ModifyRequestF":    {{"Operation", "Operation", kind{k: "list", s: "AFTOperation", elemNN: true}}},
 	"gRIBIConnection":   {{"redundMode", "redundMode", kEnum}},
 	"ModifyRequest":     {{"Params", "Params", kPtr("SessionParameters")}, {"ElectionId", "ElectionId", kPtr("Uint128")}, {"Operation", "Operation", kPtr("Unit")}},
@@ -90,7 +98,7 @@ var schemas = map[string][]field{
 
 var leanStruct = map[string]string{
 	"Uint128": "U128", "electionDetails": "ElectionDetails", "clientParams": "ClientParams", "clientState": "ClientState",
-	"SessionParameters": "SessionParameters", "FlushRequest": "FlushRequest", "ModifyRequest": "ModifyRequest", "Unit": "Unit", "OpResult": "OpResult", "AFTOperation": "AFTOperation", "String": "String", "ModifyRequestF": "ModifyRequestF", "gRIBIConnection": "GRIBIConnection",
+	"SessionParameters": "SessionParameters", "FlushRequest": "FlushRequest", "ModifyRequest": "ModifyRequest", "Unit": "Unit", "OpResult": "OpResult", "AFTOperation": "AFTOperation", "String": "String", "ModifyRequestF": "ModifyRequestF", "gRIBIConnection": "GRIBIConnection", "CandRIB": "CandRIB", "CandAfts": "CandAfts", "CandNH": "CandNH", "CandNHG": "CandNHG", "CandTop": "CandTop",
 }
 
 func leanType(k kind) string {
@@ -135,7 +143,11 @@ func leanType(k kind) string {
 	case "mresp":
 		return "Option MResp"
 	case "fun":
-		return "(" + leanType(k.t[1]) + " → " + leanType(k.t[0]) + ")"
+		t := ""
+		for _, a := range k.t[1:] {
+			t += leanType(a) + " → "
+		}
+		return "(" + t + leanType(k.t[0]) + ")"
 	case "tuple":
 		var p []string
 		for _, c := range k.t {
@@ -218,6 +230,8 @@ type env struct {
 	isNil   map[string]bool
 	effects []string
 	scopes  []map[string]*val // names declared in each open block with the binding they shadow
+	// local function literals bound to a name (called only as `return f(args)`, translated inline)
+	closures map[string]*ast.FuncLit
 }
 
 func (e env) clone() env {
@@ -232,6 +246,10 @@ func (e env) clone() env {
 		n.isNil[k] = v
 	}
 	n.effects = append([]string{}, e.effects...)
+	n.closures = map[string]*ast.FuncLit{}
+	for k, v := range e.closures {
+		n.closures[k] = v
+	}
 	for _, s := range e.scopes {
 		c := map[string]*val{}
 		for k, v := range s {
@@ -848,17 +866,26 @@ func loopState(list []ast.Stmt, en env) []string {
 // trLoop: for _, x := range L { body } in general: a structurally recursive local function whose
 // arguments are the outer places the body assigns; the code after the loop is its base case
 func trLoop(v *ast.RangeStmt, en env, next cont) string {
-	if v.Tok != token.DEFINE || v.Value == nil {
+	if v.Tok != token.DEFINE {
 		fail(v.Pos(), "range form")
 	}
-	if k, ok := v.Key.(*ast.Ident); !ok || k.Name != "_" {
-		fail(v.Pos(), "range with an index variable")
-	}
-	xv := v.Value.(*ast.Ident)
 	l := trExpr(v.X, en)
 	en = absorb(en)
 	if l.kd.k != "list" {
 		fail(v.Pos(), "range over %s", l.kd)
+	}
+	// `for k := range m` / `for k, v := range m` over a map that is represented as a list of
+	// elements carrying their key in a field Key (any order: the theorems quantify over the list)
+	keyName := ""
+	if k, ok := v.Key.(*ast.Ident); ok && k.Name != "_" {
+		if !l.kd.keyed {
+			fail(v.Pos(), "range with an index variable over a list that is not a keyed map")
+		}
+		keyName = k.Name
+	}
+	xv := &ast.Ident{Name: "elem"}
+	if v.Value != nil {
+		xv = v.Value.(*ast.Ident)
 	}
 	state := loopState(v.Body.List, en)
 	lets := takeLets()
@@ -929,6 +956,9 @@ func trLoop(v *ast.RangeStmt, en env, next cont) string {
 	} else {
 		inner.declare(xv.Name, val{lean: xn, kd: kStr})
 	}
+	if keyName != "" {
+		inner.declare(keyName, selectField(inner.vars[xv.Name], "Key", inner, v.Pos()))
+	}
 	recur := func(e env) string {
 		var args []string
 		e = e.clone()
@@ -962,7 +992,11 @@ func trLoop(v *ast.RangeStmt, en env, next cont) string {
 	sig += " → " + atom2(retType)
 	pats := strings.Join(binders, ", ")
 	lv := fresh("l")
-	def := fmt.Sprintf("let rec %s : %s := fun %s %s => (match %s, %s with\n| [], %s => %s\n| %s :: %s, %s => %s)", goName, sig, lv, strings.Join(binders, " "), lv, pats, pats, base, xn, rest, pats, body)
+	cpats := ""
+	if len(binders) > 0 {
+		cpats = ", " + pats
+	}
+	def := fmt.Sprintf("let rec %s : %s := fun %s %s => (match %s%s with\n| []%s => %s\n| %s :: %s%s => %s)", goName, sig, lv, strings.Join(binders, " "), lv, cpats, cpats, base, xn, rest, cpats, body)
 	return wrapLets(lets, "("+def+";\n"+goName+" "+atom(l.lean)+" "+strings.Join(inits, " ")+")")
 }
 
@@ -1034,6 +1068,16 @@ func zeroOf(k kind) string {
 // trCall translates a call expression to the values it returns.
 func trCall(c *ast.CallExpr, en env) []val {
 	fn := render(c.Fun)
+	if fn == "len" && len(c.Args) == 1 {
+		x := trExpr(c.Args[0], en)
+		if x.kd.k != "list" {
+			fail(c.Pos(), "len of %s", x.kd)
+		}
+		return []val{{lean: "(" + atom(x.lean) + ".length)", kd: kNat}}
+	}
+	if cl, ok := en.closures[fn]; ok && cl != nil {
+		fail(c.Pos(), "call of the local function %s outside a return statement", fn)
+	}
 	if fn == "append" && len(c.Args) == 2 {
 		a, b := trExpr(c.Args[0], en), trExpr(c.Args[1], en)
 		if a.kd.k != "list" || !((a.kd.s == "AFTResult" && b.kd.k == "aftresult") || (b.kd.k == "ptr" && b.kd.s == a.kd.s)) {
@@ -1113,12 +1157,29 @@ func trCall(c *ast.CallExpr, en env) []val {
 					out = append(out, trExpr(c.Fun.(*ast.SelectorExpr).X, en))
 					continue
 				}
+				argVal := func(tok string) val {
+					if tok == "recv" {
+						return trExpr(c.Fun.(*ast.SelectorExpr).X, en)
+					}
+					ai, err := strconv.Atoi(tok)
+					if err != nil || ai >= len(c.Args) {
+						fail(c.Pos(), "oracle result %s", r)
+					}
+					return trExpr(c.Args[ai], en)
+				}
+				if strings.HasPrefix(r, "$") {
+					// the result is one of the call's own arguments (or its receiver)
+					out = append(out, argVal(r[1:]))
+					continue
+				}
 				if i := strings.Index(r, "@"); i >= 0 {
-					// a result that depends on an argument: the oracle parameter is a function
-					ai, _ := strconv.Atoi(r[i+1:])
+					// a result that depends on arguments: the oracle parameter is a function
 					f := en.vars[r[:i]]
-					a := trExpr(c.Args[ai], en)
-					out = append(out, val{lean: "(" + f.lean + " " + atom(a.lean) + ")", kd: f.kd.t[0], path: fresh("path")})
+					app := f.lean
+					for _, tok := range strings.Split(r[i+1:], ",") {
+						app += " " + atom(argVal(tok).lean)
+					}
+					out = append(out, val{lean: "(" + app + ")", kd: f.kd.t[0], path: fresh("path")})
 					continue
 				}
 				out = append(out, en.vars[r])
@@ -1455,6 +1516,16 @@ func bindResult(en *env, name string, v val, define bool, pos token.Pos) {
 
 func trAssign(a *ast.AssignStmt, en env) env {
 	en = en.clone()
+	if len(a.Lhs) == 1 && len(a.Rhs) == 1 {
+		if fl, ok := a.Rhs[0].(*ast.FuncLit); ok {
+			id, ok := a.Lhs[0].(*ast.Ident)
+			if !ok || a.Tok != token.DEFINE {
+				fail(a.Pos(), "function literal assigned to something other than a new name")
+			}
+			en.closures[id.Name] = fl
+			return en
+		}
+	}
 	define := a.Tok == token.DEFINE
 	if a.Tok != token.DEFINE && a.Tok != token.ASSIGN {
 		fail(a.Pos(), "assignment operator %s", a.Tok)
@@ -1896,6 +1967,34 @@ func trRetVal(e ast.Expr, want string, en env) string {
 }
 
 func trReturn(r *ast.ReturnStmt, en env) string {
+	if len(r.Results) == 1 {
+		if c, ok := r.Results[0].(*ast.CallExpr); ok {
+			if fl, ok := en.closures[render(c.Fun)]; ok {
+				// return f(args) of a local function literal: its body, inline, with the parameters
+				// bound to the arguments; its own returns are the function's
+				var names []string
+				for _, p := range fl.Type.Params.List {
+					for _, n := range p.Names {
+						names = append(names, n.Name)
+					}
+				}
+				if len(names) != len(c.Args) {
+					fail(c.Pos(), "call of %s with %d arguments", render(c.Fun), len(c.Args))
+				}
+				e1 := en.push()
+				for i, a := range c.Args {
+					v := trExpr(a, en)
+					bindResult(&e1, names[i], v, true, c.Pos())
+				}
+				e1 = absorb(e1)
+				lets := takeLets()
+				return wrapLets(lets, trStmts(fl.Body.List, e1, func(env) string {
+					fail(fl.Body.Rbrace, "control reaches the end of a local function that returns values")
+					return ""
+				}))
+			}
+		}
+	}
 	if len(r.Results) != len(cur.rets) {
 		fail(r.Pos(), "return of %d values, %d expected", len(r.Results), len(cur.rets))
 	}
@@ -1991,7 +2090,7 @@ func translate(sp *fnSpec, files map[string]*ast.File, srcs map[string][]byte) (
 	oracleEffects = nil
 	counter = 0
 	loopIndex = 0
-	en := env{vars: map[string]val{}, bound: map[string]string{}, isNil: map[string]bool{}}
+	en := env{vars: map[string]val{}, bound: map[string]string{}, isNil: map[string]bool{}, closures: map[string]*ast.FuncLit{}}
 	var binders []string
 	// Go parameters, in order, must be the ones the spec lists
 	var goParams []string
